@@ -105,11 +105,11 @@ Inductive obs_build :=
 | ORejected (wo : world) (wit : list nid).
 
 (* copy=false / copy=true *)
-Definition agree_build (strip check_first : bool) (copy : bool) (w : world) (rn : list nid) (rv : list vid)
+Definition agree_build (strip check_first proxy_fix : bool) (copy : bool) (w : world) (rn : list nid) (rv : list vid)
            (o : obs_build) : bool :=
   match o with
   | OBuilt wo mo vo order =>
-    match build strip check_first (topo_obs (match order with Some l => Some l | None => None end)) w rn rv with
+    match build strip check_first proxy_fix (topo_obs (match order with Some l => Some l | None => None end)) w rn rv with
     | (wm, Ok m) =>
       let wm' := if copy then pop wm m else wm in
       let k := List.length (w_nodes w) in
@@ -120,7 +120,7 @@ Definition agree_build (strip check_first : bool) (copy : bool) (w : world) (rn 
     | (_, Err _) => false
     end
   | ORejected wo wit =>
-    match build strip check_first (fun _ _ => None) w rn rv with
+    match build strip check_first proxy_fix (fun _ _ => None) w rn rv with
     | (wm, Ok _) => false
     | (wm, Err e) =>
       list_eqb pnode_eqb (live_part w wm) (live_part w wo)
@@ -142,8 +142,8 @@ Definition agree_pop (w : world) (mo : list nid) (vo : list vid) (wo : world) (k
   && perm_eqb String.eqb (map (name_of w) (popped_nodes w m)) keys
   && perm_eqb String.eqb (map (vname_of w) vo) vkeys.
 
-Definition agree_mutate (w : world) (t : target) (mu : mutation) (rejected : bool) (wo : world) : bool :=
-  match mutate w t mu with
+Definition agree_mutate (proxy_fix : bool) (w : world) (t : target) (mu : mutation) (rejected : bool) (wo : world) : bool :=
+  match mutate proxy_fix w t mu with
   | (wm, Err _) => rejected && world_eqb wm wo && world_eqb w wo
   | (wm, Ok _) => negb rejected && match mu with MOther => true | _ => world_eqb wm wo end
   end.
@@ -153,12 +153,13 @@ Inductive step :=
 | SPop (w : world) (mo : list nid) (vo : list vid) (wo : world) (keys vkeys : list string)
 | SMutate (w : world) (t : target) (mu : mutation) (rejected : bool) (wo : world).
 
-(* the variant of the code the current tree implements: both repairs present *)
+(* the variant of the code the current tree implements: all three repairs present
+   (strip = 005a821, check_first = 5ebbe54, proxy_fix = 66a7abc) *)
 Definition agree_step (s : step) : bool :=
   match s with
-  | SBuild copy w rn rv o => agree_build true true copy w rn rv o
+  | SBuild copy w rn rv o => agree_build true true true copy w rn rv o
   | SPop w mo vo wo keys vkeys => agree_pop w mo vo wo keys vkeys
-  | SMutate w t mu rej wo => agree_mutate w t mu rej wo
+  | SMutate w t mu rej wo => agree_mutate true w t mu rej wo
   end.
 
 Definition agrees (c : list step) : bool := forallb agree_step c.
